@@ -46,7 +46,7 @@ Definition lte_pair_of (b : instr) (tail : list line) : bool :=
 Definition mid3 (n : N) (b : instr) : list line :=
   [mk_branch (inv_mn (i_mn b)) (fixl n); mk_jmp (i_op b); Lbl (fixl n)].
 Definition mid5 (n : N) (b : instr) : list line :=
-  [mk_branch BEQ (fixup n); mk_branch (inv_mn (i_mn b)) (fixl n); Lbl (fixup n);
+  [mk_branch_prot BEQ (fixup n); mk_branch (inv_mn (i_mn b)) (fixl n); Lbl (fixup n);
    mk_jmp (i_op b); Lbl (fixl n)].
 
 Lemma repair_eq : forall nfix b tail,
@@ -102,7 +102,7 @@ Proof. reflexivity. Qed.
 
 Ltac ff_step :=
   rewrite !ff_S;
-  cbn [is_cond_branch branch_taken i_mn i_op mk_branch mk_jmp mnem_eqb fC fZ fN negb
+  cbn [is_cond_branch branch_taken i_mn i_op mk_branch mk_branch_prot mk_jmp mnem_eqb fC fZ fN negb
        drop_to_label defines inv_mn].
 
 Lemma flow3 : forall s m op cy alt nb pr fl,
@@ -1014,6 +1014,8 @@ Lemma inert_mk_branch_fixl : forall m n, inert (mk_branch m (fixl n)) = true.
 Proof. intros m n. unfold mk_branch, inert. cbn [i_mn i_op]. rewrite is_fix_fixl. apply orb_true_r. Qed.
 Lemma inert_mk_branch_fixup : forall m n, inert (mk_branch m (fixup n)) = true.
 Proof. intros m n. unfold mk_branch, inert. cbn [i_mn i_op]. rewrite is_fix_fixup. apply orb_true_r. Qed.
+Lemma inert_mk_branch_prot_fixup : forall m n, inert (mk_branch_prot m (fixup n)) = true.
+Proof. intros m n. unfold mk_branch_prot, inert. cbn [i_mn i_op]. rewrite is_fix_fixup. apply orb_true_r. Qed.
 Lemma inert_mk_jmp : forall t, inert (mk_jmp t) = true.
 Proof. reflexivity. Qed.
 
@@ -1155,7 +1157,7 @@ Qed.
 Lemma norig_mid5 : forall n b, norig (mid5 n b) = 0.
 Proof.
   intros n b. unfold norig, mid5. cbn [filter].
-  rewrite inert_mk_branch_fixl, inert_mk_branch_fixup, inert_mk_jmp. reflexivity.
+  rewrite inert_mk_branch_fixl, inert_mk_branch_prot_fixup, inert_mk_jmp. reflexivity.
 Qed.
 
 Definition inv5 (c : code) (n : N) : Prop :=
